@@ -211,6 +211,84 @@ def interp_dispatch_contract(en: E.Engine):
   en.ensure('default path of interp: constant continuation outside', z3.And(z3.Implies(x < xp.get(0), r == fp.get(0)), z3.Implies(x > xp.get(n - 1), r == fp.get(n - 1))))
 
 
+def surface_pressure_contract(en: E.Engine):
+  """get_surface_pressure on one column: relative height rh = orography * g - geopotential (increasing along the level axis) and the pressure levels.
+  The result is the pressure at which the piecewise-linear profile of rh over the levels (linearly continued beyond the ends) crosses zero --
+  'the level where geopotential meets orography'.  jnp.vectorize / jax.vmap only map the column function over the horizontal and leading axes."""
+  import functools
+  import jax
+  import jax.numpy as jnp
+  from dinosaur import vertical_interpolation as vi
+  from vlib.pyvc import elem
+  from vlib.pyvc.libspec import _reg
+  ident = lambda en_, f=None, *a, **k: f
+  _reg(en, jax.vmap, ident, 'jax.vmap(f, ...) == f on one column (mapping over the horizontal axes)')
+  _reg(en, jnp.vectorize, ident, 'jnp.vectorize(f, signature) == f on one column (mapping over leading axes)')
+
+  def h_partial(en_, f, *a, **k):
+    return E.SymCallable(lambda en__, *b, **k2: en__.call(f, list(a) + list(b), dict(k, **k2)), 'functools.partial')
+  _reg(en, functools.partial, h_partial, 'functools.partial')
+  en.libspec[('subscript', 'Real')] = (None, elem.h_subscript_real)
+  # the jitted kernel is executed from its real source (its own clauses are above): jax.jit is transparent
+  en.contracts[E._callable_key(vi.linear_interp_with_linear_extrap)] = lambda en_, x, xp, fp: en_.call(en_.load_function(_fn('linear_interp_with_linear_extrap')), [x, xp, fp], {})
+  n = z3.Int('n')
+  en.inputs['n'] = n
+  en.assume(n >= 2)
+  lev = en.seq('pressure_levels', z3.RealSort(), length=n)
+  geo = en.seq('geopotential', z3.RealSort(), length=n)
+  oro, g = en.real('orography'), en.real('gravity_acceleration')
+  j = z3.Int('j')
+  en.assume(z3.ForAll([j], z3.Implies(z3.And(j >= 0, j + 1 < n), z3.And(lev.get(j) < lev.get(j + 1), geo.get(j) > geo.get(j + 1)))))      # levels increase downwards, geopotential decreases
+  k, m = z3.Int('k'), z3.Int('m')
+  en.assume(z3.ForAll([k, m], z3.Implies(z3.And(k >= 0, k < m, m < n), geo.get(k) > geo.get(m)), patterns=[z3.MultiPattern(geo.get(k), geo.get(m))]))
+  en.cover('requires: n >= 2 increasing pressure levels, geopotential decreasing downwards')
+  kind, ps = en.invoke(en.load_function(vi.get_surface_pressure), E.Obj(centers=lev), geo, oro, g)
+  if kind == 'raise':
+    en.ensure(f'get_surface_pressure raises ({ps})', False)
+    return
+  ps = E._real(ps)
+  rh = lambda i: oro * g - geo.get(i)
+  u = z3.Int('u_spec')                # the segment used: bracketing rh = 0 where possible, else the end segment
+  en.assume(z3.And(u >= 1, u <= n - 1))
+  en.assume(z3.Implies(0 < rh(1), u == 1))
+  en.assume(z3.Implies(0 >= rh(n - 1), u == n - 1))
+  en.assume(z3.Implies(z3.And(0 >= rh(1), 0 < rh(n - 1)), z3.And(rh(u - 1) <= 0, 0 < rh(u))))
+  # (1) the result is the two-point formula of the kernel on segment u (nodes = relative heights, data = levels, query 0)
+  lin = lev.get(u - 1) + (0 - rh(u - 1)) / (rh(u) - rh(u - 1)) * (lev.get(u) - lev.get(u - 1))
+  en.ensure('result == lev[u-1] + (0 - rh[u-1]) / (rh[u] - rh[u-1]) * (lev[u] - lev[u-1]) on the segment bracketing rh = 0 (or the end segment)', ps == lin)
+  # (2) at that pressure the linear profile of rh over the levels vanishes: a field identity (ring normal form; denominators non-zero by monotonicity)
+  from contracts import vertical_matrix_contracts as VM
+  prof_at = lambda p_: rh(u - 1) + (p_ - lev.get(u - 1)) * (rh(u) - rh(u - 1)) / (lev.get(u) - lev.get(u - 1))
+  mono = [lev.get(u - 1) < lev.get(u), geo.get(u - 1) > geo.get(u)]
+  VM.ensure_cases(en, 'the linear profile of (orography * g - geopotential) over the levels, evaluated at that formula, is zero: geopotential meets orography',
+                  [n >= 2, u >= 1, u <= n - 1], [('segment u', [u >= 1])], mono, prof_at(lin) == z3.RealVal(0), rules=[], timeout_ms=30000)
+  # (3) hence at the returned pressure (substitution of equals)
+  en.ensure('at the returned pressure the profile is zero (from (1) and (2))', z3.Implies(z3.And(ps == lin, prof_at(lin) == 0), prof_at(ps) == 0))
+  en.ensure('when the surface lies within the level range the surface pressure lies between the two bracketing levels',
+            z3.Implies(z3.And(rh(0) <= 0, 0 <= rh(n - 1)), z3.And(ps >= lev.get(u - 1), ps <= lev.get(u))))
+
+
+def replay_surface_pressure(w):
+  import numpy as np
+  import jax
+  jax.config.update('jax_enable_x64', True)
+  import jax.numpy as jnp
+  from dinosaur import vertical_interpolation as vi
+  rng = np.random.RandomState(9)
+  for n in (2, 4, 7):
+    lev = np.cumsum(rng.uniform(50, 200, n))
+    geo = np.cumsum(rng.uniform(500, 3000, n))[::-1].copy()                     # decreasing downwards
+    for oro_g in (geo[-1] - 200.0, 0.5 * (geo[0] + geo[-1]), geo[n // 2]):
+      oro = np.full((1, 1, 1), oro_g / 9.8)
+      ps = float(np.asarray(vi.get_surface_pressure(vi.PressureCoordinates(lev), jnp.asarray(geo)[:, None, None], jnp.asarray(oro), 9.8)).ravel()[0])
+      rh = oro_g - geo
+      u = int(np.clip(np.searchsorted(rh, 0.0, side='right'), 1, n - 1))
+      prof = rh[u - 1] + (ps - lev[u - 1]) * (rh[u] - rh[u - 1]) / (lev[u] - lev[u - 1])
+      if abs(prof) > 1e-6 * max(1.0, np.max(np.abs(rh))):
+        return True, f'levels {np.round(lev, 2).tolist()}, geopotential {np.round(geo, 1).tolist()}, orography*g {oro_g:.1f}: surface pressure {ps:.4f}, profile there {prof:.4e} (should be 0)'
+  return False, 'surface pressure is where the linear profile of orography * g - geopotential vanishes on the sampled columns'
+
+
 def replay_safe(w):
   import numpy as np
   import jax
@@ -335,6 +413,8 @@ def clauses():
              [VI + '_linear_interp_with_safe_extrap', VI + '_extrapolate_both'], rc(safe_extrap_contract, 5, cells=2), replay=replay_safe, group='pyvc-b'),
       Clause('smt:interp (default, non-accelerator path) == piecewise-linear interpolant with constant continuation (all n, all x)', 'smt', [VI + 'interp'],
              rc(interp_dispatch_contract, 3), replay=replay_interp, group='pyvc-b'),
+      Clause('smt:get_surface_pressure returns the pressure where geopotential meets orography on the piecewise-linear profile (all level counts, all columns)', 'smt',
+             [VI + 'get_surface_pressure', VI + 'linear_interp_with_linear_extrap'], rc(surface_pressure_contract, 4), replay=replay_surface_pressure, group='pyvc-b'),
       Clause('canary:_dot_interp extrapolates linearly must fail', 'smt', [VI + '_dot_interp'], rc(canary_contract, 1), canary=True, group='pyvc-b'),
   ]
   return out
